@@ -490,13 +490,24 @@ async fn run_case(addr: SocketAddr, certs: &Certs, t: &[&str]) -> anyhow::Result
                 for h in hs { if h.await.map(|r| r != "ok").unwrap_or(true) { bad += 1; } }
                 if bad == 0 { "ok".to_string() } else { format!("FAILED:{bad}_of_40_topics") }
             };
+            // a library client that now asks for a publisher on the stalled topic (whose channel is over-full), and for
+            // streams on another topic through the same `Client`: the other topic works, whatever becomes of the first request
+            let same_client = {
+                let c2 = crate::e2e::client(addr, certs, BackoffStrategy::constant().with_max_attempts(0)).await?;
+                let ta = format!("/{ns}/{tp}");
+                let (ns6, tp6) = fresh();
+                let on_a = async { let _ = tokio::time::timeout(Duration::from_secs(9), c2.publisher(&ta).with_encoder(StringCodec).open()).await; };
+                let on_b = async { tokio::time::sleep(Duration::from_millis(250)).await; probe_pubsub_on(&c2, &ns6, &tp6).await };
+                let (_, b) = tokio::join!(on_a, on_b);
+                b
+            };
             // the peer that queued up for the stalled topic goes on using another topic on the same connection for longer
             // than any internal hand-over deadline could be: its other streams are not taken down with the stuck one
             tokio::time::sleep(Duration::from_millis(5600)).await;
             let (ns5, tp5) = fresh();
             let later = match conns.last() { Some(c) => probe_raw_on(c, &ns5, &tp5).await, None => "ok".into() };
             drop(queued); drop(stalled); drop(conns);
-            Ok(format!("{a} {open_on_stalled} probe={probe} queued-peer={same} blocked-publisher={flooder} other-names={wide} queued-peer-later={later}"))
+            Ok(format!("{a} {open_on_stalled} probe={probe} queued-peer={same} blocked-publisher={flooder} other-names={wide} queued-peer-later={later} same-client={same_client}"))
         }
         other => anyhow::bail!("bad registry case {other}"),
     }
@@ -584,13 +595,13 @@ pub fn run_named(cfg: &Cfg, name: &str) {
                            Err(if t[1].starts_with("stall") || t[1] == "mute" { format!("C11/C17: with one topic stalled the server can no longer be talked to at all: {e}") } else { format!("{e}") })),
             Ok(Ok(line)) => {
                 let mut m = Ok(());
-                let probe_ok = line.split(' ').filter(|x| x.contains('=') && ["probe", "queued-peer", "blocked-publisher", "other-names", "queued-peer-later"].contains(&x.split('=').next().unwrap())).all(|x| x.ends_with("=ok"));
+                let probe_ok = line.split(' ').filter(|x| x.contains('=') && ["probe", "queued-peer", "blocked-publisher", "other-names", "queued-peer-later", "same-client"].contains(&x.split('=').next().unwrap())).all(|x| x.ends_with("=ok"));
                 // whom a dead probe speaks for: a topic left unusable (C11); for the stall scenario other topics (C17); a replier
                 // slot that a dead registration keeps occupied (C10)
                 let tag = if t[1] == "stall" || t[1] == "stall1" || t[1] == "mute" { "C11/C17" } else if t[1] == "abandon" && t[2] == "RR" { "C10/C11" } else { "C11" };
                 if !probe_ok { dead = line.contains("hang"); m = Err(format!("{tag}: after `{}` well-behaved clients are no longer served: {line}", t[1..].join(" ").chars().take(80).collect::<String>())); }
                 if m.is_ok() {
-                    let answers: Vec<&str> = line.split(' ').filter(|x| !x.starts_with("probe=") && !x.starts_with("queued-peer=") && !x.starts_with("blocked-publisher=") && !x.starts_with("other-names=") && !x.starts_with("queued-peer-later=") && !x.starts_with("a=") && !x.starts_with("b=") && !x.starts_with("got=") && !x.starts_with("lib=")).collect();
+                    let answers: Vec<&str> = line.split(' ').filter(|x| !x.starts_with("probe=") && !x.starts_with("queued-peer=") && !x.starts_with("blocked-publisher=") && !x.starts_with("other-names=") && !x.starts_with("queued-peer-later=") && !x.starts_with("same-client=") && !x.starts_with("a=") && !x.starts_with("b=") && !x.starts_with("got=") && !x.starts_with("lib=")).collect();
                     for a in &answers {
                         if *a == "timeout" { m = Err(format!("C11: a stream was neither served nor refused nor closed: {line}")); }
                     }
